@@ -119,6 +119,8 @@ pub struct C02Cell {
     pub seed_gen: u8,
     /// a member publishes a custom broadcast item after the cluster settled
     pub custom_item: bool,
+    /// the cluster speaks the bit-packing wire format (2-byte members)
+    pub packed: bool,
 }
 
 pub fn pattern_name(p: u8) -> &'static str {
@@ -127,7 +129,7 @@ pub fn pattern_name(p: u8) -> &'static str {
 
 impl C02Cell {
     pub fn label(&self) -> String {
-        format!("n={} {} mt={} fanout={} periodic={} packet={}{}", self.n, pattern_name(self.pattern), self.mt, self.fanout, self.periodic, self.packet, if self.seed_gen != 0 { " announce-by-address(made-up generation)" } else if self.custom_item { " custom-item-after-settling" } else { "" })
+        format!("n={} {} mt={} fanout={} periodic={} packet={}{}", self.n, pattern_name(self.pattern), self.mt, self.fanout, self.periodic, self.packet, if self.seed_gen != 0 { " announce-by-address(made-up generation)" } else if self.custom_item { " custom-item-after-settling" } else if self.packed { " packed-wire-format(2-byte members)" } else { "" })
     }
     /// (time, joiner, seed)
     fn plan(&self) -> Vec<(u64, u8, u8)> {
@@ -155,6 +157,7 @@ impl C02Cell {
 pub fn run_c02(cell: &C02Cell, devs: &BTreeMap<usize, usize>) -> RunResult {
     let n = cell.n;
     let mut sim = Sim::new(n, opts(n, &cell.lat));
+    sim.codec = FixCodec { packed: cell.packed, ..FixCodec::default() };
     sim.chooser.deviations = devs.clone();
     sim.chooser.recording = true;
     let cfg = Cfg {
@@ -240,7 +243,7 @@ pub fn run_c02(cell: &C02Cell, devs: &BTreeMap<usize, usize>) -> RunResult {
 fn feed_completeness(rep: &mut Report) -> u64 {
     let mut evals = 0u64;
     for var in [false, true] {
-        let codec = FixCodec { var };
+        let codec = FixCodec { var, ..FixCodec::default() };
         for n in 2..=24usize {
             let members: Vec<Id> = (1..n as u8).map(|a| id(a, if var { a % 3 } else { 0 })).collect();
             let newcomer = id(n as u8, 0);
@@ -361,10 +364,11 @@ pub fn c02(tier: &str) -> Report {
                             } else {
                                 1
                             };
-                            cells.push((C02Cell { n, pattern, mt, fanout, periodic, packet, assert_discovery, lat: vec![1, 9], seed_gen: 0, custom_item: false }, d));
+                            cells.push((C02Cell { n, pattern, mt, fanout, periodic, packet, assert_discovery, lat: vec![1, 9], seed_gen: 0, custom_item: false, packed: false }, d));
                             if packet == 1400 {
-                                cells.push((C02Cell { n, pattern, mt, fanout, periodic, packet, assert_discovery, lat: vec![1, 9], seed_gen: 3, custom_item: false }, d.min(1)));
-                                cells.push((C02Cell { n, pattern, mt, fanout, periodic, packet, assert_discovery, lat: vec![1, 9], seed_gen: 0, custom_item: true }, d.min(1)));
+                                cells.push((C02Cell { n, pattern, mt, fanout, periodic, packet, assert_discovery, lat: vec![1, 9], seed_gen: 3, custom_item: false, packed: false }, d.min(1)));
+                                cells.push((C02Cell { n, pattern, mt, fanout, periodic, packet, assert_discovery, lat: vec![1, 9], seed_gen: 0, custom_item: true, packed: false }, d.min(1)));
+                                cells.push((C02Cell { n, pattern, mt, fanout, periodic, packet, assert_discovery, lat: vec![1, 9], seed_gen: 0, custom_item: false, packed: true }, d.min(1)));
                             }
                         }
                     }
@@ -377,7 +381,7 @@ pub fn c02(tier: &str) -> Report {
         for pattern in 0..3u8 {
             for &mt in &[1u8, 3, 10] {
                 for &(packet, assert_discovery) in &[(9 + 5 * n, true), (9 + 5 * (n - 2), true), (1400, true)] {
-                    cells.push((C02Cell { n, pattern, mt, fanout: 3, periodic: false, packet, assert_discovery, lat: vec![1, 9], seed_gen: 0, custom_item: false }, usize::from(th && n <= 8)));
+                    cells.push((C02Cell { n, pattern, mt, fanout: 3, periodic: false, packet, assert_discovery, lat: vec![1, 9], seed_gen: 0, custom_item: false, packed: false }, usize::from(th && n <= 8)));
                 }
             }
         }
@@ -820,7 +824,26 @@ pub fn run_c04(cell: &C04Cell, devs: &BTreeMap<usize, usize>) -> RunResult {
     // the recovery clause is about the FORMED cluster: a joiner whose own
     // Announce/Feed is the lost datagram is not yet part of it
     let all: Vec<u8> = (0..cell.formed() as u8).collect();
+    // heard[x]: a datagram delivered to x carried a Suspect/Down claim about x
+    // (the only way a suspect learns that it has something to refute)
+    let mut heard = vec![false; n];
+    // told_others[x]: a Suspect claim about x was delivered to somebody else
+    let mut told_others = vec![false; n];
     while let Some((_, e)) = sim.step(horizon) {
+        if let Evt::Deliver { to, bytes, .. } = &e {
+            if let Ok(p) = grammar::parse(&sim.codec, bytes) {
+                for u in p.updates.iter().flatten() {
+                    let a = u.id().addr as usize;
+                    if a < n && u.state() != State::Alive {
+                        if a == *to as usize {
+                            heard[a] = true;
+                        } else if u.state() == State::Suspect {
+                            told_others[a] = true;
+                        }
+                    }
+                }
+            }
+        }
         if let Evt::Action { node, .. } = e {
             sim.spawn(node, node_id(node, cell.renew), &cfg);
             sim.call(node, &Ev::Announce(id(0, 0)));
@@ -829,6 +852,16 @@ pub fn run_c04(cell: &C04Cell, devs: &BTreeMap<usize, usize>) -> RunResult {
             break;
         }
     }
+    // root cause of a run that went wrong: its first MemberDown. When the
+    // member it names never received a single claim about itself and
+    // max_transmissions is tiny, the suspicion was spent among the others
+    // (known finding F12), whatever follows from it
+    let first_down = sim
+        .logs
+        .iter()
+        .flat_map(|l| l.notes.iter().filter_map(|(t, x)| if let N::MemberDown(i) = x { Some((*t, *i)) } else { None }))
+        .min_by_key(|x| x.0);
+    let starved = first_down.is_some_and(|(_, i)| cell.mt <= 2 && n >= 3 && !heard[i.addr as usize] && told_others[i.addr as usize]);
     common_violations(&sim, &mut res, "c04");
     match &sim.dropped {
         None => {
@@ -846,7 +879,8 @@ pub fn run_c04(cell: &C04Cell, devs: &BTreeMap<usize, usize>) -> RunResult {
                 N::Defunct => "defunct",
                 _ => "rejoin",
             };
-            res.violations.push((format!("c04:{what}"), format!("t={t} node {a} notified {} after the loss of {} [{}]", show_note(x), sim.dropped.as_ref().map(|(f, to, d)| format!("{}->{} {}", f, to, show_dgram(&sim.codec, d))).unwrap_or_default(), cell.label())));
+            let sig = if starved { "member-down|suspicion-never-reached-the-suspect|max_transmissions<=2".to_string() } else { format!("c04:{what}") };
+            res.violations.push((sig, format!("t={t} node {a} notified {} after the loss of {} [{}]", show_note(x), sim.dropped.as_ref().map(|(f, to, d)| format!("{}->{} {}", f, to, show_dgram(&sim.codec, d))).unwrap_or_default(), cell.label())));
         }
     }
     if res.violations.is_empty() && !sim.lists_alive(&all) {
